@@ -246,7 +246,7 @@ CLAIMED["C13"] = {
             "unshrinking, i/j blocks of update equal up to renaming, is-free guard and summand on one variable, shrink tests' sign "
             "pattern); the three support-vector predicates are one expression; every status-change test compares against a snapshot taken "
             "before the first write; running bounds that start at +/-infinity are tightened by min/max respectively and every "
-            "branch of calculate_rho feeds y_i*G_i. The maintenance of gradient_fixed in update() ranges over all ntotal() positions (loop bounds and lengths of zipped kernel columns); a nu-classification hyperplane is rescaled with rho; a term is added to gradient_fixed only where the variable is at its upper bound after the step and subtracted only where it has left it (the reached_upper() status governing each update is dated against the assignment of the new alpha, through flag parameters too). "
+            "branch of calculate_rho feeds y_i*G_i. The maintenance of gradient_fixed in update() ranges over all ntotal() positions (loop bounds and lengths of zipped kernel columns); a nu-classification hyperplane is rescaled with rho; a term is added to gradient_fixed only where the variable is at its upper bound after the step and subtracted only where it has left it (the reached_upper() status governing each update is dated against the assignment of the new alpha, through flag parameters too); every call of the nu-classification set-up is preceded by a test, with an error exit, of that nu against counts of those targets (an infeasible nu is refused instead of fitted from a point that violates the equality constraint). "
             "The training kernel matrix is filled from KernelMethod::distance, the function prediction evaluates, not from a separate expanded-square formula. "
             "Problem set-ups are cross-checked against the solver kind: a nu formulation with two classes of variables (nu-SVC, nu-SVR) requests the nu-constrained solver, every other one the plain solver (the nu-SVR set-up of the pinned tree does not: known finding); the two running bounds of calculate_rho[_nu] are combined only under a finiteness test (one of them is still infinite when no variable of one kind exists, nu = 1); when solve() repeats the working-set selection and replaces the pair, no component of the first selection stays in use. Hand-written Clone impls of the parameter sets and models copy every field (derived ones do by construction), no builder method resets another user-settable field to a value that does not depend on its argument, and builder methods that rebuild the struct carry every field; no generic-float / f64 value is narrowed to f32 and stored, and no f32 arithmetic over converted values is widened back into the generic float. "
             "Not decided: KKT conditions, rho, objective values. "
